@@ -196,7 +196,7 @@ Quiescent == \A t \in Ids : ~InternalEnabled(t)
 
 Next ==
   \/ \E ds \in SUBSET Ids, lim \in Limits, at \in Attrs : Enqueue(ds, lim, at)
-  \/ \E t \in Ids : Internal(t) \/ Cancel(t) \/ \E c \in {0, 1, -15} : ProcExit(t, c)
+  \/ \E t \in Ids : Internal(t) \/ Cancel(t) \/ \E c \in {0, 1} : ProcExit(t, c)
   \/ Tick
 
 Spec == Init /\ [][Next]_vars
